@@ -265,6 +265,10 @@ func calculateModRM(mem *ng_operand.MemoryInfo, bitMode cpu.BitMode, regBits byt
 	// --- 16-bit Addressing (Table 2-1) ---
 	if bitMode == cpu.MODE_16BIT || uses16BitAddressRegister(mem) { // 32ビットモードでも [BX+SI] 等は 67h 付きの 16 ビットアドレッシング
 		sibByte = 0 // No SIB in 16-bit mode
+		// 16 ビットアドレッシングにスケールはない ([BX+SI*2] を [BX+SI] として黙ってエンコードしない)
+		if mem.Scale > 1 && uses16BitAddressRegister(mem) {
+			return 0, 0, nil, fmt.Errorf("a scale factor is not available in 16-bit addressing: Base=%s, Index=%s, Scale=%d", mem.BaseReg, mem.IndexReg, mem.Scale)
+		}
 		switch {
 		case mem.BaseReg == "BX" && mem.IndexReg == "SI":
 			rm = 0b000
